@@ -16,7 +16,7 @@ class Executor:
         """
         self._cells_have_been_changed: bool = False
         self._executed_instance: Optional[AbstractExcelInPython] = None
-        self._cells: Set[Cell] = set()
+        self._cells: List[Cell] = []
         self._titles: Dict[str, int] = {}
         self._sheets_size: List[Dict[str, int]] = []
 
@@ -71,7 +71,9 @@ class Executor:
             self._sheets_size[sheet]['last_row'] = max(row, self._sheets_size[sheet]['last_row'])
             self._sheets_size[sheet]['last_column'] = max(column, self._sheets_size[sheet]['last_column'])
 
-        self._cells = {*cells, *self._cells}
+        # one entry per cell, in the order of the calls: the last value written to a cell wins.  (A set of
+        # cells hashed by (uid, value) kept every value ever written and let the hash order pick one.)
+        self._cells = list({cell.uid: cell for cell in [*self._cells, *cells]}.values())
         self._cells_have_been_changed = True
         return self
 
